@@ -163,7 +163,7 @@ func TestGenerated(t *testing.T) {
 	hx.Check(t, test, hx.N(150, 2500), func(rt *rapid.T) {
 		m, feats := gen.Module(rt, genCfg())
 		gen.SparseMetadataIDs(rt, m)
-		noise := gen.DrawNoise(rt)
+		noise := gen.DrawNoiseWithAliases(rt)
 		if noise.SplitAttrGroups && genOff["noise-split-attrgroups"] {
 			noise.SplitAttrGroups = false
 			hx.Known("excluded:noise-split-attrgroups")
@@ -172,7 +172,7 @@ func TestGenerated(t *testing.T) {
 		hx.Eval(1)
 		o := judge(rt, test, "own-generator", "; source: own-generator\n"+x, true)
 		if o.V == orc.OK {
-			if d := inventory(m, o.M); d != "" {
+			if d := inventory(m, o.M, len(noise.TypeAlias)); d != "" {
 				hx.Fail(rt, test, "ll", "; source: own-generator\n"+x, "inventory: %s (LLVM's canonical form drops unused definitions and applied use-list orders, so these are compared directly)\n--- printed output ---\n%s", d, o.Out)
 			}
 			for k, v := range feats {
@@ -189,7 +189,7 @@ func TestGenerated(t *testing.T) {
 // inventory compares what the generator emitted with what the parsed module lists, for the kinds of
 // definitions that LLVM's canonical form silently drops when unused (type definitions, attribute
 // groups, unreferenced metadata, use-list orders) and for the others as a cross-check.
-func inventory(m *am.Module, pm *ir.Module) string {
+func inventory(m *am.Module, pm *ir.Module, aliasedTypes int) string {
 	namedMD := map[string]bool{}
 	for _, n := range m.NamedMDs {
 		namedMD[n.Name] = true
@@ -206,7 +206,7 @@ func inventory(m *am.Module, pm *ir.Module) string {
 		what      string
 		want, got int
 	}{
-		{"type definitions", len(m.U.Defs), len(pm.TypeDefs)},
+		{"type definitions (an alias chain counts as the one definition it names)", len(m.U.Defs) + aliasedTypes, len(pm.TypeDefs)},
 		{"comdats", len(m.Comdats), len(pm.ComdatDefs)},
 		{"global variables", len(m.Globals), len(pm.Globals)},
 		{"aliases and ifuncs", len(m.Aliases), len(pm.Aliases) + len(pm.IFuncs)},
